@@ -4,6 +4,8 @@
   del     the line is deleted                      dup     the line is duplicated
   delsec  acq + cs lines deleted                   dupsec  acq + cs lines duplicated (the log stays well-formed)
   snap    the snapshot of a core/sched/dwaker section is changed (other state / length + 1 / other waker state)
+  res     the result of a oneshot poll (os poll) is changed (pending <-> value); os lines and the future_sync markers sf OSTART / OEND /
+          DROPFUT are deleted / duplicated like the others
   swap    the cs line is exchanged with the next replayed line of ANOTHER task (order of two actors' steps)
 All copies are replayed; the table says how many the driver rejects.  `swap` of two independent steps and dup/del of a
 read-only section (debug assertions, probes) are legitimately acceptable, the table lists them separately (column ro=1: the
@@ -15,7 +17,8 @@ here = os.path.dirname(os.path.abspath(__file__))
 CS = ('core', 'sched', 'fres', 'dwaker', 'dblwaker')
 MK = ('FIRE', 'AWAITREG', 'AWAITREADY', 'TWAKE', 'UNPARKED', 'RESUME')
 def cols(l): return l.split('\t')
-def replayed(c): return len(c) == 5 and ((c[1] == 'cs' and c[2] in CS) or (c[1] == 'api' and c[2] in MK) or (c[1] == 'new' and c[2] == 'fres'))
+SF = ('OSTART', 'OEND', 'DROPFUT')      # harness markers of future_sync (also logged for the bodies of other operations, where the driver ignores them)
+def replayed(c): return len(c) == 5 and ((c[1] == 'cs' and c[2] in CS) or (c[1] == 'api' and c[2] in MK) or (c[1] == 'new' and c[2] in ('fres', 'oneshot')) or c[1] == 'os' or (c[1] == 'sf' and c[2] in SF))
 def other_snap(cls, snap):
     if cls == 'core':
         p = snap.split('/')
@@ -40,6 +43,8 @@ for f in sys.argv[2:]:
         same = [j for j in range(max(0, i - 12), min(end, i + 12)) if j != i and cols(lines[j])[:1] == c[:1] and cols(lines[j])[1:] == c[1:]]
         ro = 1 if (sec and same) else 0
         variants = [('del', lines[:i] + lines[i+1:]), ('dup', lines[:i+1] + [l] + lines[i+1:])]
+        if c[1] == 'os' and c[2] == 'poll':      # the result of a oneshot poll is changed
+            variants.append(('res', lines[:i] + ['\t'.join(c[:4] + ['value' if c[4] == 'pending' else 'pending'])] + lines[i+1:]))
         if sec:
             a = next((j for j in range(i - 1, -1, -1) if cols(lines[j])[:1] == c[:1] and cols(lines[j])[1:4] == ['acq', c[2], c[3]]), None)
             if a is not None:
